@@ -17,6 +17,22 @@ def put(s, tag, body):
     if b not in s:
         return s
     return s[:s.index(b) + len(b)] + '\n' + body + '\n' + s[s.index(e):]
+# status table (section 9.2): one block per property from checks/CNN.json (the single source of the level texts,
+# also used for MANIFEST.json) and the theorem counts of the last evidence file
+import glob, os
+blocks = []
+for f in sorted(glob.glob('/verif/checks/C*.json')):
+    pid = os.path.basename(f)[:-5]
+    c = json.load(open(f))
+    try:
+        ev = json.load(open('/verif/evidence/%s.json' % pid)); cov = ev.get('coverage', {})
+        cnt = '%s theorems audited (`#print axioms`), %s discharged, last evidence tier %s' % (cov.get('obligations', '?'), cov.get('discharged', '?'), ev.get('tier'))
+    except Exception:
+        cnt = 'no evidence file'
+    gm = ', '.join(c.get('gen_modules', [])) or 'none'
+    blocks.append('**%s** — %s; regenerated modules (tie T): %s.\n\n*Proved / compared:* %s\n\n*Trusted, open, found:* %s\n' % (
+        pid, cnt, gm, ' '.join(c.get('level_text', '').split()), ' '.join(c.get('level_note', '').split())))
+s = put(s, 'status', '\n'.join(blocks))
 s = put(s, 'seeded', seeded)
 s = put(s, 'findings', findings)
 open(D, 'w').write(s)
